@@ -599,6 +599,52 @@ def _popped_level(ctx, rule):
     return c10.r18_popped_level_read_once(ctx, rule)
 
 
+def r20_scorer_table_fields(ctx, rule):
+    """The scorer reads IP.level / CP.level as `level<TAB>n-gram`: every `self.ip[K] = V` / `self.cp[K] = V` of OmenScorer._load_omen
+    stores the level (the int of field 0) under the n-gram (field 1), rejects only NEGATIVE levels, and takes the n-gram size from
+    the length of field 1.  (Mutation sweep: `self.ip[line[0]] = level`, `if level <= 0: raise` - level 0 is the most common level -
+    were silent.)"""
+    q = 'lib_scorer/omen_scorer.py::OmenScorer._load_omen'
+    fn = ctx.fn(q)
+    mod = ctx.repo.modules['lib_scorer/omen_scorer.py']
+    ctx.stats['functions'].add(q)
+    n = 0
+    ok = True
+    for lp in [x for x in walk_local(fn) if isinstance(x, ast.For) and isinstance(x.target, ast.Name)]:
+        rec = None
+        for st in lp.body:
+            if isinstance(st, ast.Assign) and len(st.targets) == 1 and isinstance(st.targets[0], ast.Name) and 'split(' in U(st.value):
+                rec = st.targets[0].id
+        lvl = [st.targets[0].id for st in lp.body if isinstance(st, ast.Assign) and len(st.targets) == 1 and isinstance(st.targets[0], ast.Name)
+               and isinstance(st.value, ast.Call) and call_name(st.value) == 'int']
+        for st in walk_stmts(lp.body):
+            if isinstance(st, ast.Assign) and len(st.targets) == 1 and isinstance(st.targets[0], ast.Subscript) \
+                    and U(st.targets[0].value) in ('self.ip', 'self.cp'):
+                n += 1
+                if rec is None or len(lvl) != 1:
+                    ok = False
+                    ctx.unk(rule, q, 'the record / level variables of the %s loop are not identifiable' % U(st.targets[0].value))
+                    continue
+                lv_def = [s2.value for s2 in lp.body if isinstance(s2, ast.Assign) and U(s2.targets[0]) == lvl[0]][0]
+                if U(st.targets[0].slice) != '%s[1]' % rec or U(st.value) != lvl[0] or U(lv_def.args[0]) != '%s[0]' % rec:
+                    ok = False
+                    ctx.bad(rule, q, '%s with %s = %s' % (U(st), lvl[0], U(lv_def)), 'the table maps the n-gram (field 1) to its level (int of '
+                            'field 0)', None, st, firm=True)
+        # level guards: only negative levels are refused
+        for g in [x for x in walk_stmts(lp.body) if isinstance(x, ast.If) and x.body and isinstance(x.body[-1], ast.Raise) and lvl
+                  and any(isinstance(y, ast.Name) and y.id == lvl[0] for y in ast.walk(x.test))]:
+            t = U(g.test).replace(' ', '')
+            if t not in ('%s<0' % lvl[0], '0>%s' % lvl[0], '%s<=-1' % lvl[0]):
+                ok = False
+                if isinstance(g.test, ast.Compare) and len(g.test.ops) == 1:
+                    ctx.bad(rule, q, 'a level is refused when ' + U(g.test), 'levels are 0 .. max_level: only a negative level is malformed (level 0 is '
+                            'the level of the most common n-grams)', None, g, firm=True)
+                else:
+                    ctx.unk(rule, q, 'level guard %s is not of a form this rule knows' % U(g.test)[:50])
+    if ctx.floor(rule, q, n, 2, 'table stores in the scorer loader') and ok:
+        ctx.ok(rule, q, 'IP and CP map field 1 to int(field 0); only negative levels are refused')
+
+
 def _model_unfiltered(ctx, rule):
     # seed C10-o: CP cut down to the prefixes found in IP after loading - the level of a string no longer is what the files say
     from . import c10
@@ -627,7 +673,9 @@ def rules(tier):
             # C11-ca: next guess fetched before the quit check - one string per interrupted level is lost
             ('C11.R18', _shared_rule('c15', 'r2_no_generated_unemitted')),
             # C10-ca / C18-ca: OMEN config key read with a fallback
-            ('C11.R19', _shared_rule('c10', 'r20_omen_config_keys'))]
+            ('C11.R19', _shared_rule('c10', 'r20_omen_config_keys')),
+            # mutation sweep: the scorer's table loader storing under field 0 / refusing level 0
+            ('C11.R20', _shared_rule('c11', 'r20_scorer_table_fields'))]
 
 
 META = {
